@@ -136,7 +136,15 @@ def theorem_ranges(mod):
     ns = []
     decls = []
     lines = open(path).read().split('\n')
+    depth = 0
     for i, l in enumerate(lines, 1):
+        # skip block comments / docstrings (they may contain words like `namespace`, `theorem`)
+        opens, closes = l.count('/-'), l.count('-/')
+        if depth > 0 or (opens and not l.lstrip().startswith(('theorem', 'lemma', 'def', 'namespace', 'end'))):
+            depth += opens - closes
+            if depth < 0:
+                depth = 0
+            continue
         m = re.match(r'^namespace\s+(\S+)', l)
         if m:
             ns.append(m.group(1))
@@ -431,7 +439,18 @@ def run_check(prop, spec, tier, seed):
             continue
         broken = not status.get(o['id'], (True, None))[0]
         try:
-            res = fn(rng, budget * (3 if broken else 1), big or broken)
+            fns = fn if isinstance(fn, (list, tuple)) else [fn]
+            res = dict(evaluations=0, distinct_nontrivial=0, failures=[], samples=[], worst=None)
+            for f1 in fns:
+                r1 = f1(rng, budget * (3 if broken else 1) / len(fns), big or broken)
+                res['evaluations'] += r1.get('evaluations', 0)
+                res['distinct_nontrivial'] += r1.get('distinct_nontrivial', r1.get('evaluations', 0))
+                res['samples'] += r1.get('samples', [])
+                for fl in r1.get('failures', []):
+                    if fl.get('site') not in [x.get('site') for x in res['failures']]:
+                        res['failures'].append(fl)
+                if r1.get('worst') is not None:
+                    res['worst'] = r1['worst']
         except Exception as ex:
             log('oracle for %s crashed: %s' % (o['id'], ex))
             log(traceback.format_exc())
@@ -533,8 +552,17 @@ def replay(prop, spec, path):
         log('re-run ./check %s to see whether the theorem / correspondence checks now' % prop)
         return 1
     fn = o.get('replay') or o.get('oracle')
+    fns = fn if isinstance(fn, (list, tuple)) else [fn]
+    res = dict(failures=[])
     with quiet():
-        res = fn(random.Random(0), 0, False, replay=fi)
+        for f1 in fns:
+            if fi.get('oracle') and getattr(f1, '__name__', None) not in (None, fi.get('oracle')) and len(fns) > 1:
+                continue
+            try:
+                r1 = f1(random.Random(0), 0, False, replay=fi)
+            except Exception:
+                continue
+            res['failures'] += [f for f in r1.get('failures', []) if f.get('site') == fi.get('site')]
     if res.get('failures'):
         log('replay: still fails: %s' % json.dumps(res['failures'][0], default=str)[:600])
         log('VIOLATION property=%s replay=%s' % (prop, path))
